@@ -246,6 +246,20 @@ func (s *Sys) genHostileGRPC(t *Tape, dom Domain, existing []Tuple) hostileReq {
 	} else {
 		base = dom.Tuple(t)
 	}
+	// one message in six carries long names made of multi-byte characters, in a
+	// namespace the server does not know or in the object / subject: whatever the
+	// server quotes or truncates for its error answer has to stay valid text
+	if t.Bool(1, 6) {
+		long := []string{strings.Repeat("ä", 250), "a" + strings.Repeat("文", 200), strings.Repeat("😀", 70) + "x", "ab" + strings.Repeat("é", 300), strings.Repeat("x", 125) + strings.Repeat("ß", 10)}[t.Choose(5)]
+		switch t.Choose(3) {
+		case 0:
+			base.NS = long
+		case 1:
+			base.Obj = long
+		default:
+			base.Sub = Subject{Set: &SetRef{NS: long, Obj: long, Rel: long}}
+		}
+	}
 	pt := base.Proto()
 	// absent optional sub-messages
 	switch t.Choose(5) {
